@@ -194,7 +194,7 @@ impl Gen {
     }
 
     fn registered_cmd(&mut self, snap: &Value, c: &str) -> Value {
-        let me = snap["conns"][c]["nick"][0].as_str().unwrap_or("").to_string();
+        let me = snap["conns"][c]["nick"][0].as_str().unwrap_or("nobody").to_string();
         let r = self.rng.gen_range(0..1000);
         match r {
             0..=119 => {
